@@ -235,6 +235,9 @@ DROPPED_SIG = {"site": "queueing.watcher",
                "shape": "worker failed while its watcher was already depleting its workers: only logged, not escalated, not re-raised"}
 DK_SIG = {"site": "daemons.daemon_killer",
           "shape": "daemon killer fails (running_daemons changed size during iteration) while spawning the exit stoppers"}
+ORCHFAIL_SIG = {"site": "orchestration.orchestrator",
+                "shape": "the orchestrator ended with an exception of its own (not a cancellation) without stopping its ensemble: the "
+                         "streams, their handlers in flight and the keep-alives run on through the cleanup activity until the hung-task stop"}
 ORPHAN_SIG = {"site": "scanning.scan_resources",
               "shape": "discovery requests by orphaned as_completed children after the observer task ended, concurrent with the cleanup activity"}
 
@@ -292,6 +295,19 @@ def extract(ctx: Ctx) -> None:
     # (3) ... but passes over APINotFoundError
     ignores404 = any(any(isinstance(n, ast.If) and "isinstance" in ast.unparse(n.test) and "APINotFoundError" in ast.unparse(n.test)
                          and all(isinstance(b, ast.Pass) for b in n.body) for n in ast.walk(f)) for f in callbacks)
+    # ... and passes over NOTHING ELSE: every branch of the callback that does nothing (`pass` only) must be exactly
+    # `isinstance(<name>, [errors.]APINotFoundError)` — a tuple of classes, a base class (APIClientError), an `or` are other
+    # failures the operator would survive half-alive: unknown shape (the generated stream failures — HTTP 403 / 5xx on the
+    # list/watch, in-stream ERROR events — are what finds the failing input then)
+    def _only_not_found(test: ast.AST) -> bool:
+        return (isinstance(test, ast.Call) and isinstance(test.func, ast.Name) and test.func.id == "isinstance" and len(test.args) == 2
+                and not test.keywords and isinstance(test.args[0], ast.Name) and isinstance(test.args[1], (ast.Attribute, ast.Name))
+                and ast.unparse(test.args[1]).split(".")[-1] == "APINotFoundError")
+    for f in callbacks:
+        for n in ast.walk(f):
+            if isinstance(n, ast.If) and all(isinstance(b, ast.Pass) for b in n.body) and not _only_not_found(n.test):
+                raise ExtractError(f"the orchestrator's done-callback passes over `{ast.unparse(n.test)[:100]}`: only "
+                                   f"`isinstance(exc, errors.APINotFoundError)` is a known shape")
     # (4) the CancelledError handler stops the streams and then raises the recorded error (not only the cancellation)
     recorded = {n.id for f in callbacks for st in ast.walk(f) if isinstance(st, ast.Nonlocal) for n in
                 [ast.Name(id=x) for x in st.names]}
@@ -528,6 +544,40 @@ def given_up(log: list, upto: int | None = None) -> set[tuple]:
     stopper, waited `cancellation_backoff`, cancelled the task if `cancellation_timeout` is set, waited that long, and then given
     the daemon up ("Leaving it orphaned"). Every other daemon that got a stopper ended within its stopper's patience."""
     return {(e[2], e[4] if len(e) > 4 else None) for e in log[:upto] if e[1] == "stopperEnd" and not e[3]}
+
+
+def unjustified_give_ups(sc: dict, log: list, upto: int | None = None) -> list[tuple]:
+    """The by-design deviation C20-D1 is: `stop_daemon` sets the stopper, waits `cancellation_backoff`, cancels the task if
+    `cancellation_timeout` is set, waits that long, and only THEN gives the daemon up. A daemon left alive by a stopper that did
+    NOT go through all of that — it ended before its patience (backoff + timeout) was over, it never asked the task to cancel
+    although a timeout is configured, or it was itself cut short (cancelled / failed) while operator() was not cancelled — was not
+    "given up by design": it simply was not stopped. OBSERVED: the stopper's begin/end times, how it ended, `Task.cancelling()`
+    of the daemon's task; from the scenario: the configured backoff / timeout of that handler."""
+    opts_of = {h["id"]: (h.get("opts") or {}) for h in sc.get("handlers", []) if h["kind"] in ("daemon", "timer")}
+    out: list[tuple] = []
+    begun: dict[tuple, float] = {}
+    op_cancelled = False
+    for e in log[:upto]:
+        if e[1] == "op" and e[2] in ("cancel", "cancel_yields"):
+            op_cancelled = True
+        elif e[1] == "stopperBegin":
+            begun[(e[2], e[4] if len(e) > 4 else None)] = e[0]
+        elif e[1] == "stopperEnd" and not e[3]:
+            key = (e[2], e[4] if len(e) > 4 else None)
+            how = e[5] if len(e) > 5 else "ended"
+            cancelling = e[6] if len(e) > 6 else None
+            o = opts_of.get(e[2], {})
+            b, t = o.get("cancellation_backoff"), o.get("cancellation_timeout")
+            patience = float(b or 0) + float(t or 0)
+            spent = e[0] - begun.get(key, e[0])
+            if how != "ended":
+                if not op_cancelled:        # (a repeated cancellation of operator() cuts the killer and its stoppers short: C20-D4)
+                    out.append((key, f"its stopper was {how} after {spent} s"))
+            elif spent + 1e-9 < patience:
+                out.append((key, f"its stopper gave up after {spent} s of {patience} s (backoff {b}, timeout {t})"))
+            elif t is not None and cancelling is not None and cancelling < 1:
+                out.append((key, f"its stopper never cancelled the task although cancellation_timeout={t}"))
+    return out
 
 
 def model_cfg(sc: dict, fixed: bool, core_watched: bool, orch_shielded: bool = True, spawn_swept: bool = True,
@@ -899,7 +949,23 @@ def oracle(sc: dict, obs: dict) -> tuple[list[tuple[str, dict]], dict]:
                                                (limits.get(h) is not None and raised_n.get(h, 0) >= limits[h]))
                          for h in startup_ids)
     cleanup_raised = any(log[i][2] == "cleanup" and log[i][5].startswith("raised:Permanent") for i in pos["hEnd"])
-    for f in failures:
+    # a watch stream that fails unrecoverably BY THE ENVIRONMENT's doing — the API answers the list/watch requests of a served
+    # resource with an HTTP error for good (felt after the client's retries) — is a failure of an essential task
+    # whatever the code makes of it: the oracle does not wait for a task to END failed (a task that swallows the error and lives
+    # on half-alive is exactly what the property forbids). By kopf's documented design a 403 on the CRDs / namespaces is not a
+    # failure (restricted mode: no runtime observation) — not generated, not demanded.
+    env_failures: list[tuple[int, float, str, str]] = []
+    for i in pos["op"]:
+        if log[i][2] == "watch_http":
+            resname, status = log[i][3], int(log[i][4])
+            if resname in ("crd", "ns") and status == 403:
+                continue
+            # (kopf's client retries EVERY error answer, 4xx included, `settings.networking.error_backoffs` times; the cut stream
+            #  reconnects after `settings.watching.reconnect_backoff`)
+            allowance = sum(BACKOFFS) + (len(BACKOFFS) + 1) * 2 * LAT + 0.5
+            env_failures.append((i, log[i][0] + allowance, "env:" + str(resname), f"HTTP {status}"))
+    facts["env_failures"] = [f[2] + ":" + f[3] for f in env_failures]
+    for f in failures + env_failures:
         if f[0] < end_pos:
             trig.append((f[0], f[1], "failure"))
     trig.sort()
@@ -925,6 +991,19 @@ def oracle(sc: dict, obs: dict) -> tuple[list[tuple[str, dict]], dict]:
     stop_cancelled = [i for i, e in enumerate(log) if e[1] == "rtStopRootsCancelled"]
     never_stopped = ret is not None and ret["how"] == "cancelled" and not any(e[1] == "rtStopRootsBegin" for e in log)
     facts["double_cancelled_orchestrator"] = bool(double_cancel)
+    # finding C20-F12: the orchestrator's OWN loop failed (here: the harness poisoned its next adjustment — an error of the class
+    # "framework bug", as the poisoned event is for a worker) and it ended WITHOUT stopping its ensemble (no exit stop at all,
+    # ensemble tasks alive at its end). Attributed only when the environment did poison it.
+    orch_end = next((i for i in pos["rootEnd"] if log[i][2] == "orchestrator"), None)
+    orch_poisoned = next((i for i, e in enumerate(log) if e[1] == "poisoned" and e[2] == "orchestrator"), None)
+    orch_own_failure = False
+    if orch_end is not None and orch_poisoned is not None and orch_poisoned < orch_end and log[orch_end][3] == "failed" \
+            and log[orch_end][4] == "Poison" and not any(e[1] == "orchStopSubsBegin" and not e[3] for e in log[:orch_end]):
+        alive = [e[2] for e in log[:orch_end] if e[1] == "subSpawn"
+                 and not any(x[1] == "subEnd" and x[2] == e[2] for x in log[:orch_end])]
+        orch_own_failure = bool(alive)
+        facts["ensemble_alive_at_orchestrator_failure"] = len(alive)
+    facts["orchestrator_own_failure"] = orch_own_failure
     # (observations that name the regression when one of the repaired findings C20-F10 / C20-F11 comes back; no clause below is
     #  relaxed for them)
     if never_stopped:
@@ -961,6 +1040,14 @@ def oracle(sc: dict, obs: dict) -> tuple[list[tuple[str, dict]], dict]:
         if ret is None or ret["how"] != "failed":
             fail("running.run_tasks", "failed startup not re-raised by operator()",
                  f"startup handlers ended {last_end}, operator() outcome: {ret}")
+
+    # "daemons are stopped": an exit stopper that leaves its daemon alive WITHOUT having done what kopf documents (flag, backoff,
+    # cancellation, timeout) has not stopped it, by design or otherwise
+    unjust = [u for u in unjustified_give_ups(sc, log) if not dk_failed]
+    facts["daemons_left_alive_by_a_cut_short_stopper"] = [list(u[0]) for u in unjust]
+    if unjust:
+        fail("daemons.stop_daemon", "a daemon was left alive by an exit stopper that had not gone through its procedure (stopper set, "
+             "cancellation_backoff, cancellation, cancellation_timeout)", f"{unjust[:3]}")
 
     # ---- after a failure of an essential task or a stop request: the whole operator shuts down --------------
     lingering = False
@@ -1017,6 +1104,12 @@ def oracle(sc: dict, obs: dict) -> tuple[list[tuple[str, dict]], dict]:
             elif dropped and dropped[0][0] == p0 and kind0 == "failure":
                 bad.append((f"a worker failed with {dropped[0][3]} at t={t0} while its watcher was depleting its workers; nothing was "
                             f"escalated: operator() still running at t={limit} (bound {bound} s); outcome {ret}", DROPPED_SIG))
+            elif orch_own_failure:
+                wd_open = [e for e in log if e[1] == "withdrawBegin"] and not [e for e in log if e[1] == "withdrawEnd" and e[0] <= limit]
+                bad.append((f"the orchestrator failed with {log[orch_end][4]} at t={log[orch_end][0]} and left its ensemble "
+                            f"({facts['ensemble_alive_at_orchestrator_failure']} tasks) running; operator() still not returned at "
+                            f"t={limit} (bound {bound} s)" + ("; the keep-alive, cancelled as a hung task after the cleanup has closed the "
+                            "vault, waits for credentials for ever in its withdrawal" if wd_open else "") + f"; outcome {ret}", ORCHFAIL_SIG))
             else:
                 fail("running.run_tasks", f"operator() did not return within the grace periods after a {kind0}",
                      f"trigger {kind0} at t={t0}, bound {bound} s, outcome {ret}")
@@ -1038,7 +1131,7 @@ def oracle(sc: dict, obs: dict) -> tuple[list[tuple[str, dict]], dict]:
         kinds = [k for _, _, k in trig]
         if "cancel" in kinds:
             want = {"cancelled"}
-        elif failures or startup_failed or cleanup_raised:
+        elif failures or env_failures or startup_failed or cleanup_raised:
             want = {"failed"}
         else:
             want = {"done"}
@@ -1066,7 +1159,8 @@ def oracle(sc: dict, obs: dict) -> tuple[list[tuple[str, dict]], dict]:
                  f"outcome {ret}, triggers {kinds}, failures {facts['failures']}, startup_failed={startup_failed}, "
                  f"cleanup_raised={cleanup_raised}")
         elif ret["how"] == "failed":
-            names = {f[3] for f in failures} | ({"ActivityError"} if (startup_failed or cleanup_raised) else set())
+            names = {f[3] for f in failures} | ({"ActivityError"} if (startup_failed or cleanup_raised) else set()) \
+                | ({"APIForbiddenError", "APIServerError"} if env_failures else set())
             if ret["exc"] not in names:
                 fail("running.run_tasks", "operator() raised something else than the failure of a task",
                      f"raised {ret['exc']}, failures {sorted(map(str, names))}")
@@ -1101,7 +1195,19 @@ def oracle(sc: dict, obs: dict) -> tuple[list[tuple[str, dict]], dict]:
             # that is logged and ignored — a deviation from the property text, recorded as C20-D3, not exempted
             failed_attempt = [e for e in attempts if e[4] not in (None, "CancelledError")] or \
                 [r for r in obs.get("requests", []) if r.get("withdraw") and not (isinstance(r.get("response"), int) and r["response"] < 400)]
-            if pings and present and failed_attempt:
+            # ... by design only when the ENVIRONMENT made it fail: the API answered the withdrawal PATCH with an error, or the
+            # credentials were gone (the credentials retriever had died / an HTTP 401 had invalidated them) and the attempt failed
+            # for want of them; a withdrawal that fails for any other reason is a plain violation
+            req_failed = [r for r in obs.get("requests", []) if r.get("withdraw") and not (isinstance(r.get("response"), int) and r["response"] < 400)]
+            creds_lost = any(f[2] == "root:core" for f in failures) or any(log[i][2] == "unauthorized" for i in pos["op"])
+            exc_attempts = [e for e in attempts if e[4] not in (None, "CancelledError")]
+            by_env = bool(req_failed) or (bool(exc_attempts) and creds_lost and
+                                          all(e[4] in ("LoginError", "AccessError", "APIUnauthorizedError") for e in exc_attempts))
+            if pings and present and failed_attempt and not by_env:
+                fail("peering.keepalive", "the withdrawal of the peering record failed although the API had not refused it",
+                     f"attempts {[e[4] for e in attempts]}, requests {[r.get('response') for r in obs.get('requests', []) if r.get('withdraw')]}; "
+                     f"record after the return: {obs.get('peering_status')}")
+            elif pings and present and failed_attempt:
                 bad.append((f"the withdrawal of the peering record failed ({failed_attempt[0][4] if isinstance(failed_attempt[0], list) else failed_attempt[0].get('response')}) "
                             f"and was ignored: the record is still there after operator() returned: {obs.get('peering_status')}", WITHDRAW_SIG))
             elif pings and not wd and not attempts:
@@ -1143,7 +1249,11 @@ def oracle(sc: dict, obs: dict) -> tuple[list[tuple[str, dict]], dict]:
                     (log[i][1] in ("hBegin", "hEnd") and log[i][2] in CHANGE_KINDS and log[i][2] not in DK) or
                     (log[i][1] in ("rootEnd",) and log[i][2] not in ("startupCleanup",)) or
                     (log[i][1] in ("subEnd", "workerEnd"))]
-            if late and double_cancel:
+            if late and orch_own_failure:
+                bad.append((f"the orchestrator failed with {log[orch_end][4]} at t={log[orch_end][0]} and ended at once, its ensemble "
+                            f"({facts['ensemble_alive_at_orchestrator_failure']} tasks) alive: cleanup began at t={log[c0][0]}; later: "
+                            f"{late[:3]}", ORCHFAIL_SIG))
+            elif late and double_cancel:
                 bad.append((f"the orchestrator was cancelled again at t={log[double_cancel[0]][0]} while stopping its ensemble and ended "
                             f"at once: cleanup began at t={log[c0][0]} with the ensemble still alive; later: {late[:3]}", DOUBLE_SIG))
             elif late:
@@ -1160,7 +1270,9 @@ def oracle(sc: dict, obs: dict) -> tuple[list[tuple[str, dict]], dict]:
                 elif e[1] == "hEnd" and e[2] in DK and i < c0:
                     running_d.pop((e[3], e[4]), None)
             # (requests and further invocations of such daemons / timers during the cleanup belong to the same deviation)
-            gave_up = given_up(log, max(c0, op_end))
+            # (only the daemons given up BY DESIGN — by a stopper that went through its whole procedure — belong to C20-D1)
+            not_by_design = {k for k, _why in unjustified_give_ups(sc, log, max(c0, op_end))}
+            gave_up = given_up(log, max(c0, op_end)) - not_by_design
             late_running = sorted(d for d, i in running_d.items() if killer_pos is not None and created.get(d, i) > killer_pos)
             swept = {d: i for d, i in running_d.items() if d not in late_running}
             abandoned = sorted(d for d in swept if d in gave_up)
@@ -1221,7 +1333,12 @@ TRIGGERS = ["flag", "flag", "cancel", "cancel", "watch_error_kex", "watch_error_
             "flag", "watch_error_kex", "crd_gone", "login_fail", "worker_fail_depletion", "early_stop_peering",
             # two triggers in one history, and the stop at the very first moment
             "failure_then_stop", "failure_then_stop", "two_failures", "flag_then_cancel", "respawn_daemon", "cancel_in_spawn",
-            "worker_fail_gone", "login_fail_at_stop"]
+            "worker_fail_gone", "login_fail_at_stop",
+            # a stream failing by an HTTP error on its list/watch (403 at once, 5xx beyond the retries) instead of an in-stream ERROR
+            # event; the namespace observer's OWN stream (a NAMESPACED operator); the orchestrator's own failure (finding C20-F12)
+            "watch_http", "watch_http", "ns_stream", "orch_fail",
+            # a cancellation of operator() while run_tasks WAITS FOR THE HUNG TASKS (a daemon its stopper has given up is one)
+            "cancel_in_hung_wait"]
 PHASES = ["startup", "startup_end", "discovery", "spawning", "steady", "inflight"]
 
 
@@ -1240,6 +1357,8 @@ def gen_history(rng: Any, i: int, force: dict | None = None) -> dict:
         peering = force.get("peering", rng.random() < 0.3)
     if trigger == "login_fail_at_stop":
         peering = force.get("peering", rng.random() < 0.6)
+    if trigger == "ns_stream":
+        peering = False
     handlers: list[dict] = []
     shape: dict[str, Any] = {"trigger": trigger, "peering": peering}
     # startup handlers
@@ -1257,8 +1376,11 @@ def gen_history(rng: Any, i: int, force: dict | None = None) -> dict:
                         {"kind": "startup", "id": "stF", "script": script, "opts": dict(opts)})
     if trigger in ("flag", "cancel") and force.get("phase", None) in (None, "startup") and not any(
             h["kind"] == "startup" and any(isinstance(a, list) for a in h["script"]) for h in handlers) and rng.random() < 0.5:
-        handlers.append({"kind": "startup", "id": "stS", "script": [["sleep", 2.0, "ok"]], "opts": {}})
-        st_shapes.append("sleep")
+        # (a LONG startup handler, half of the time: a stop request during the startup must be felt AT ONCE, not when the startup
+        #  is over — with a short handler the delay hides inside the grace periods of the bound)
+        long_ = rng.random() < 0.5
+        handlers.append({"kind": "startup", "id": "stS", "script": [["sleep", 32.0 if long_ else 2.0, "ok"]], "opts": {}})
+        st_shapes.append("sleep-long" if long_ else "sleep")
     shape["startup"] = sorted(st_shapes)
     # cleanup handlers
     cl_shapes = []
@@ -1280,6 +1402,11 @@ def gen_history(rng: Any, i: int, force: dict | None = None) -> dict:
         name, d, opts = rng.choice([s for s in DAEMON_SHAPES if s[0] in ("obey", "cancel", "cancel-backoff")])
         dm.append(name)
         handlers.append({"kind": "daemon", "id": "d0", "daemon": dict(d), "opts": dict(opts)})
+    if trigger == "cancel_in_hung_wait":
+        # a daemon that its exit stopper gives up at once (C20-D1): it is what run_tasks waits for as a hung task, for 5 s
+        name, d, opts = rng.choice([s for s in DAEMON_SHAPES if s[0] in ("cancel-hung", "poll-default")])
+        dm.append(name)
+        handlers.append({"kind": "daemon", "id": "dH", "daemon": dict(d), "opts": dict(opts)})
     shape["daemons"] = sorted(dm)
     SPECIAL = ("worker_fail_depletion", "respawn_daemon", "worker_fail_gone", "crd_gone", "cancel_in_spawn", "login_fail",
                "login_fail_at_stop")
@@ -1292,6 +1419,10 @@ def gen_history(rng: Any, i: int, force: dict | None = None) -> dict:
     shape["timer"] = has_timer
     dur = rng.choice([0.5, 1.5, 1.5, 3.0]) if trigger not in ("worker_fail_depletion", "respawn_daemon", "worker_fail_gone") \
         else rng.choice([1.0, 1.5])
+    if trigger in ("flag", "cancel", "watch_error_kex", "watch_error_crd", "watch_http") and rng.random() < 0.2:
+        # a handler that outlasts EVERY grace period: in flight at the stop, it is cut after `exit_timeout` — the depletion of the
+        # workers must not wait for it (with handlers of 0.5-3 s a depletion without a timeout hides inside the bound's slack)
+        dur = 24.0
     handlers.append({"kind": "create", "id": "c", "script": [], "default": "ok"})
     handlers.append({"kind": "update", "id": "u", "script": [], "default": ["sleep", dur, "ok"]})
     if trigger in ("login_fail", "login_fail_at_stop"):
@@ -1299,7 +1430,7 @@ def gen_history(rng: Any, i: int, force: dict | None = None) -> dict:
         handlers.append({"kind": "login", "id": "lg", "script": ["ok", "perm"], "default": "perm"})
     n_obj = rng.choice([0, 1, 1, 2, 3]) if trigger not in ("poison", "memo_poison", "login_fail", "worker_fail_depletion",
                                                               "respawn_daemon", "flag_then_cancel", "worker_fail_gone",
-                                                              "login_fail_at_stop") \
+                                                              "login_fail_at_stop", "cancel_in_hung_wait") \
         else rng.choice([1, 2])
     objects = [{"name": f"o{k}"} for k in range(n_obj)]
     # the trigger's moment
@@ -1312,6 +1443,10 @@ def gen_history(rng: Any, i: int, force: dict | None = None) -> dict:
     if trigger in ("worker_fail_depletion", "failure_then_stop", "two_failures", "flag_then_cancel", "respawn_daemon",
                    "worker_fail_gone", "login_fail_at_stop"):
         phase = "steady"
+    if trigger == "cancel_in_hung_wait":
+        phase = "steady"
+    if trigger in ("watch_http", "ns_stream", "orch_fail") and phase == "spawning":
+        phase = rng.choice(["steady", "inflight"])
     if trigger == "cancel_in_spawn":
         phase = "startup"
     if trigger == "early_stop_peering":
@@ -1349,6 +1484,11 @@ def gen_history(rng: Any, i: int, force: dict | None = None) -> dict:
         handlers.append({"kind": "login", "id": "lg0", "script": [], "default": "ok"})
         sc["empty_vault"] = True
     shape["empty_vault"] = bool(sc.get("empty_vault"))
+    # a NAMESPACED operator (namespaces=["ns"] instead of cluster-wide): the namespace observer runs a watch stream of its own,
+    # the watchers are per (resource, namespace); without peering (the fake cluster has the cluster-wide peering object only)
+    if trigger == "ns_stream" or (not peering and trigger not in SPECIAL + ("early_stop_peering",) and rng.random() < 0.2):
+        sc["namespaced"] = ["ns"]
+    shape["namespaced"] = bool(sc.get("namespaced"))
     if rng.random() < 0.3 and trigger not in ("worker_fail_depletion", "respawn_daemon", "worker_fail_gone"):
         sc["settings"]["queueing.exit_timeout"] = rng.choice([0.5, 1.0, 4.0])
     if trigger == "flag":
@@ -1457,6 +1597,22 @@ def gen_history(rng: Any, i: int, force: dict | None = None) -> dict:
         ops.append([t - 0.25, "poison", objects[0]["name"], 77])
         ops.append([t, stop])
         shape["inflight"] = True
+    elif trigger == "watch_http":
+        res = rng.choice(["kex", "kex", "crd"] + (["ns", "ns"] if sc.get("namespaced") else []))
+        status = rng.choice([403, 500, 503]) if res == "kex" else rng.choice([500, 503])
+        ops.append([t, "watch_http", res, status])
+        shape["stream"] = f"{res}:{status}"
+    elif trigger == "ns_stream":
+        how = rng.choice(["error", "http"])
+        ops.append([t, "watch_error", "ns"] if how == "error" else [t, "watch_http", "ns", rng.choice([500, 503])])
+        shape["stream"] = "ns:" + how
+    elif trigger == "orch_fail":
+        ops.append([t, "orch_poison"])
+    elif trigger == "cancel_in_hung_wait":
+        # the root tasks are over after D (the other daemons' stoppers) + W (withdrawal) + C (cleanup); the hung wait lasts 5 s
+        g_ = graces(sc)
+        ops.append([t, "flag"])
+        ops.append([t + g_["D"] + g_["C"] + (0.25 if peering else 0.0) + rng.choice([0.5, 1.0, 2.5, 4.0]), "cancel"])
     elif trigger in ("startup_fail",):
         pass
     elif trigger == "cleanup_fail":
@@ -1464,7 +1620,8 @@ def gen_history(rng: Any, i: int, force: dict | None = None) -> dict:
     # when is the trigger felt at the latest? (keep-alive period <= 60 s; retries of a failing request)
     felt = {"login_fail_at_stop": t, "failure_then_stop": t + 0.25, "two_failures": t + 0.25, "flag_then_cancel": t + 0.5, "cancel_in_spawn": 0.0,
             "worker_fail_gone": t + 2.0, "login_fail": t + 1.0, "pinger_500": t + 60.0 + 8.0, "discovery_500_rescan": t + 8.0, "discovery_500_initial": s_dur + 8.0,
-            "startup_fail": s_dur + 1.0, "memo_poison": t + 1.0}.get(trigger, t)
+            "startup_fail": s_dur + 1.0, "memo_poison": t + 1.0, "watch_http": t + 6.0, "ns_stream": t + 6.0,
+            "orch_fail": t + 1.0, "cancel_in_hung_wait": t + 12.0}.get(trigger, t)
     b = bound_s(sc)
     probe = felt + b + 2.0
     if objects and trigger not in ("crd_gone",):
@@ -1548,6 +1705,10 @@ def _evaluate(ctx: Ctx, histories: list[dict], tie: bool = True) -> None:
         if facts.get("noncooperative"):
             noncoop.add(k)
             ctx.count("tie_skipped", "C20-F7")
+        elif facts.get("orchestrator_own_failure"):
+            # the orchestrator's OWN failure has no counterpart in the Lean model (ASSUMPTIONS; open finding C20-F12): oracle only
+            noncoop.add(k)
+            ctx.count("tie_skipped", "C20-F12 (orchestrator's own failure: not modelled)")
         shape = dict(sc.get("shape") or {"corpus": sc.get("name")})
         shape["outcome"] = (obs.get("returned") or {}).get("how")
         ctx.case(key=shape, nontrivial=facts.get("trigger") is not None,
@@ -1560,9 +1721,11 @@ def _evaluate(ctx: Ctx, histories: list[dict], tie: bool = True) -> None:
             ctx.count("daemon_mode", d)
         ctx.count("peering", bool(sc.get("peering")))
         ctx.count("orchestrator_exit_order", str(facts.get("exit_order")))
-        for extra in ("timer", "second_kind", "empty_vault"):
+        for extra in ("timer", "second_kind", "empty_vault", "namespaced"):
             ctx.count(extra, bool((sc.get("shape") or {}).get(extra)))
         ctx.count("daemons_given_up_by_their_stopper", str(len(given_up(obs["log"]))))
+        if (sc.get("shape") or {}).get("stream"):
+            ctx.count("stream_failure_by_http", str(sc["shape"]["stream"]))
         for what, sig in bad:
             ctx.oracle_fail(what, {"history": sc, "facts": facts, "returned": obs.get("returned"),
                                    "log_tail": obs["log"][-40:]}, sig)
@@ -1626,8 +1789,69 @@ def _evaluate(ctx: Ctx, histories: list[dict], tie: bool = True) -> None:
         ctx.compare("C20 final state of the run", impl, model, {"history": sc})
 
 
+RUN_SIG_RERAISE = {"site": "running.run", "shape": "the run call does not re-raise the failure operator() ended with"}
+RUN_SIG_RETURN = {"site": "running.run", "shape": "the run call does not return normally although operator() returned / was cancelled"}
+RUN_SIG_KWARGS = {"site": "running.run", "shape": "the run call does not hand an argument over to operator() (e.g. the stop flag is never seen)"}
+
+
+def _check_run_call(ctx: Ctx, only: dict | None = None) -> None:
+    """"… and the RUN CALL returns (re-raising the failure)": `kopf.run()` is the synchronous call around `operator()` (what
+    `kopf run` and every embedding program call). The whole-operator histories drive `operator()`; here the REAL `run()` is
+    called around a scripted `operator` (module attribute replaced for the call), with a loop of its own and with none: whatever
+    operator() ends with must come out of run() — a failure re-raised, a normal return and a cancellation (documented) as a normal
+    return — and every argument (stop flag, ready flag, registry, settings, …) must reach operator() as it was given."""
+    import asyncio
+    import inspect
+    from kopf._core.reactor import running
+
+    class Boom(Exception):
+        pass
+    from kopf._core.engines import activities as _act
+    outcomes = {"returns": None, "raises": Boom("scripted failure of an essential task"),
+                "raises_activity_error": _act.ActivityError("scripted failed startup", outcomes={}),
+                "cancelled": asyncio.CancelledError()}
+    params = [p for p in inspect.signature(running.run).parameters if p != "loop"]
+    for outcome, exc in outcomes.items():
+        for with_loop in (False, True):
+            case = {"outcome": outcome, "with_loop": with_loop}
+            if only is not None and only != case:
+                continue
+            sent = {p: object() for p in params}
+            got: dict[str, Any] = {}
+
+            async def scripted_operator(**kw: Any) -> None:
+                got.update(kw)
+                await asyncio.sleep(0)
+                if exc is not None:
+                    raise exc
+            real = running.operator
+            running.operator = scripted_operator  # type: ignore[assignment]
+            loop = asyncio.new_event_loop() if with_loop else None
+            how: tuple[str, str | None]
+            try:
+                try:
+                    running.run(loop=loop, **sent)
+                    how = ("returned", None)
+                except BaseException as e:  # noqa: BLE001
+                    how = ("raised", type(e).__name__)
+            finally:
+                running.operator = real  # type: ignore[assignment]
+                if loop is not None:
+                    loop.close()
+            ctx.case(key={"run_call": outcome, "with_loop": with_loop}, nontrivial=True)
+            ctx.count("run_call", f"{outcome}/{'loop' if with_loop else 'asyncio.run'} -> {how[0]}")
+            want = ("raised", type(exc).__name__) if outcome.startswith("raises") else ("returned", None)
+            if how != want:
+                ctx.oracle_fail(f"kopf.run() around an operator() that {outcome}: {how}, expected {want}", {"run_call": case},
+                                RUN_SIG_RERAISE if outcome.startswith("raises") else RUN_SIG_RETURN)
+            lost = sorted(p for p in params if got.get(p, None) is not sent[p])
+            if lost:
+                ctx.oracle_fail(f"kopf.run() does not pass {lost} on to operator() as given", {"run_call": case}, RUN_SIG_KWARGS)
+
+
 def run(ctx: Ctx) -> None:
-    n = ctx.budget(150, 5000)
+    _check_run_call(ctx)
+    n = ctx.budget(200, 5000)
     histories = [sc for _, sc in _corpus()]
     ctx.count("histories", "corpus", len(histories))
     # every trigger at every phase it applies to, then random
@@ -1659,6 +1883,9 @@ def search(ctx: Ctx, broken: list) -> None:
 
 def replay(ctx: Ctx, data: dict) -> None:
     rep = data.get("replay", data)
+    if "run_call" in rep:
+        _check_run_call(ctx, only=rep["run_call"])
+        return
     sc = rep.get("history") or (rep.get("input") or {}).get("history")
     if sc is None:
         raise RuntimeError("replay file has no history")
